@@ -325,6 +325,9 @@ var c12bytes = gen.Register(&gen.Check[caseC12bytes]{
 		for _, v := range []*big.Int{new(big.Int), bigOne, pm1, ref.P, new(big.Int).Add(ref.P, bigOne), new(big.Int).Sub(two256, bigOne)} {
 			out = append(out, caseC12bytes{Kind: "parse32", Data: gen.H(v)})
 		}
+		for _, v := range append(gen.WordProducts(ref.P, 64, gen.Neighbours5), gen.WordProducts(ref.P, 32, gen.Neighbours3)...) {
+			out = append(out, caseC12bytes{Kind: "parse32", Data: gen.H(v)})
+		}
 		ff := make([]byte, 48)
 		for i := range ff {
 			ff[i] = 0xff
